@@ -120,6 +120,36 @@ theorem pRetract_step (id : Id) (expect : Option Nat) (s : Store) (tx : Tx) :
     repeat' split
     all_goals first | exact .same rfl h1 | exact .same rfl ⟨h1.1, h1.2.1, h1.2.2⟩
 
+theorem pCheck2_step (a b : Id) (pred : Staged → Staged → Option Err) (s : Store) (tx : Tx) :
+    Step s tx (pCheck2 a b pred s tx) := by
+  unfold pCheck2
+  split
+  · exact .same rfl (TxSame.rfl' _)
+  · rename_i tx1 x hl
+    have h1 := load_same hl
+    split
+    · exact .same rfl h1
+    · rename_i tx2 y hl2
+      have h2 := h1.trans (load_same hl2)
+      split <;> exact .same rfl h2
+
+theorem pExpectStatus_step (id : Id) (expect : Option Nat) (s : Store) (tx : Tx) :
+    Step s tx (pExpectStatus id expect s tx) := by
+  unfold pExpectStatus
+  split
+  · exact .same rfl (TxSame.rfl' _)
+  · exact pCheck2_step _ _ _ _ _
+
+theorem pEdit_step (id : Id) (k : Option Kind) (g : Staged → Option Err) (f : Row → Row) (al : Bool) (op : Op)
+    (s : Store) (tx : Tx) : Step s tx (pEdit id k g f al op s tx) := by
+  unfold pEdit
+  split
+  · exact .same rfl (TxSame.rfl' _)
+  · rename_i tx1 x hl
+    have h1 := load_same hl
+    repeat' split
+    all_goals first | exact .same rfl h1 | exact .same rfl ⟨h1.1, h1.2.1, h1.2.2⟩
+
 theorem pAct_step (id : Id) (a : Act) (s : Store) (tx : Tx) : Step s tx (pAct id a s tx) := by
   unfold pAct
   split
@@ -145,7 +175,7 @@ theorem pPurge_step (id : Id) (bad : Bool) (s : Store) (tx : Tx) : Step s tx (pP
 planning state: the store is `base` plus exactly the transaction's shells, at ids that were free. -/
 structure RInv (base : Store) (q : Nat) (d : Bool) (p : PS) : Prop where
   wf : WF p.s
-  raw : ∀ i, p.s.elems i = if i ∈ p.tx.shells then some (shellElem q) else base.elems i
+  raw : ∀ i, p.s.elems i = if i ∈ p.tx.shells then some (shellElem i.kind q) else base.elems i
   fresh : ∀ i ∈ p.tx.shells, base.elems i = none
   journal : p.s.journal = base.journal
   vlog : p.s.vlog = base.vlog
@@ -157,7 +187,7 @@ structure RInv (base : Store) (q : Nat) (d : Bool) (p : PS) : Prop where
 
 theorem RInv.of_step {base : Store} {q : Nat} {d : Bool} {s : Store} {tx : Tx} {e : Option Err} {p : PS}
     (h0 : RInv base q d { s := s, tx := tx, err := e }) (hp : Step s tx p) : RInv base q d p := by
-  have h : WF s ∧ (∀ i, s.elems i = if i ∈ tx.shells then some (shellElem q) else base.elems i) ∧
+  have h : WF s ∧ (∀ i, s.elems i = if i ∈ tx.shells then some (shellElem i.kind q) else base.elems i) ∧
       (∀ i ∈ tx.shells, base.elems i = none) ∧ s.journal = base.journal ∧ s.vlog = base.vlog ∧ s.seq = base.seq ∧
       tx.seq = q ∧ (∀ k, base.next k ≤ s.next k) ∧ tx.dry = d ∧ (s.envs = base.envs ∧ s.envVersion = base.envVersion) :=
     ⟨h0.wf, h0.raw, h0.fresh, h0.journal, h0.vlog, h0.seq, h0.txseq, h0.next, h0.txdry, h0.env⟩
@@ -244,6 +274,11 @@ theorem pres_pSetState (id : Id) (to : St) (x : Option St) : Pres (pSetState id 
 theorem pres_pRetract (id : Id) (x : Option Nat) : Pres (pRetract id x) := Pres.of_step (pRetract_step id x)
 theorem pres_pPurge (id : Id) (b : Bool) : Pres (pPurge id b) := Pres.of_step (pPurge_step id b)
 theorem pres_pAct (id : Id) (a : Act) : Pres (pAct id a) := Pres.of_step (pAct_step id a)
+theorem pres_pCheck2 (a b : Id) (pred : Staged → Staged → Option Err) : Pres (pCheck2 a b pred) :=
+  Pres.of_step (pCheck2_step a b pred)
+theorem pres_pExpectStatus (id : Id) (x : Option Nat) : Pres (pExpectStatus id x) := Pres.of_step (pExpectStatus_step id x)
+theorem pres_pEdit (id : Id) (k : Option Kind) (g : Staged → Option Err) (f : Row → Row) (al : Bool) (op : Op) :
+    Pres (pEdit id k g f al op) := Pres.of_step (pEdit_step id k g f al op)
 
 theorem RInv.pActs {base : Store} {q : Nat} {d : Bool} (id : Id) (acts : List Act) {p : PS} (h : RInv base q d p) :
     RInv base q d (pActs id acts p) := by
@@ -267,6 +302,9 @@ macro "pres_chain" h:ident : tactic => `(tactic|
     | exact pres_pRetract _ _ _ _ _ _ _ _ $h
     | exact pres_pPurge _ _ _ _ _ _ _ _ $h
     | exact pres_pAssign _ _ _ _ _ _ _ _ $h
+    | exact pres_pEdit _ _ _ _ _ _ _ _ _ _ _ _ $h
+    | exact pres_pCheck2 _ _ _ _ _ _ _ _ _ $h
+    | exact pres_pExpectStatus _ _ _ _ _ _ _ _ $h
     | exact Pres.fail' _ _ _ _ _ _ _ $h
     | exact pres_pGuard _ _
     | exact pres_pLoad _
@@ -274,6 +312,9 @@ macro "pres_chain" h:ident : tactic => `(tactic|
     | exact pres_pBind _ _
     | exact pres_pStageNew _ _
     | exact pres_pAssign _ _
+    | exact pres_pEdit _ _ _ _ _ _
+    | exact pres_pCheck2 _ _ _
+    | exact pres_pExpectStatus _ _
     | apply RInv.andThen'
     | apply Pres.pMint
     | (intro _id; apply Pres.chain)
@@ -340,7 +381,7 @@ theorem RInv.discard_raw {base : Store} {q : Nat} {d : Bool} {p : PS} (h : RInv 
   · rename_i hm; exact (h.fresh i hm).symm
   · rename_i hm; have := h.raw i; simp only [hm, if_false] at this; exact this
 
-theorem visible_shell (q : Nat) : visible (some (shellElem q)) = none := by simp [visible, shellElem]
+theorem visible_shell (k : Kind) (q : Nat) : visible (some (shellElem k q)) = none := by simp [visible, shellElem]
 
 /-- without the discard the collections differ from `base` only by `pending` rows -/
 theorem RInv.visible_same {base : Store} {q : Nat} {d : Bool} {p : PS} (h : RInv base q d p) (i : Id) :
